@@ -9,6 +9,7 @@ import (
 	"context"
 	"fmt"
 	"math/rand"
+	"net/netip"
 	"sort"
 	"strings"
 	"sync"
@@ -231,6 +232,49 @@ func c04History(c *ctxT, hid int, seed int64) {
 		}
 		return ctx, cancel, where
 	}
+	// in a third of the histories addresses (idle or held) vanish from the cloud behind the daemon's back and the
+	// periodic metadata sync marks them invalid: a repeated ADD must still return the pod's own address
+	stopDrift := make(chan struct{})
+	var dw sync.WaitGroup
+	if rng.Intn(3) == 0 {
+		dseed := rng.Int63()
+		d.mon.mu.Lock()
+		d.mon.noGoneClause = true
+		d.mon.mu.Unlock()
+		dw.Add(1)
+		go func() {
+			defer dw.Done()
+			br := dRand(dseed)
+			for {
+				select {
+				case <-stopDrift:
+					return
+				case <-time.After(time.Duration(15+br.Intn(80)) * time.Millisecond):
+				}
+				if br.Intn(2) == 0 {
+					snap := d.cloud.Snapshot()
+					var cands []netip.Addr
+					for _, e := range snap.ENIs {
+						if e.Deleted {
+							continue
+						}
+						for _, a := range append(append([]netip.Addr{}, e.V4...), e.V6...) {
+							if a != e.Primary {
+								cands = append(cands, a)
+							}
+						}
+					}
+					if len(cands) > 0 {
+						sort.Slice(cands, func(i, j int) bool { return cands[i].Less(cands[j]) })
+						if a := cands[br.Intn(len(cands))]; d.cloud.RemoveAddress(a) {
+							r.Count("addresses_removed_behind_the_daemon", 1)
+						}
+					}
+				}
+				d.locals[br.Intn(len(d.locals))].VerifSync()
+			}
+		}()
+	}
 	var cw sync.WaitGroup
 	for ci := 0; ci < cfg.Clients; ci++ {
 		cw.Add(1)
@@ -312,6 +356,8 @@ func c04History(c *ctxT, hid int, seed int64) {
 		}()
 	}
 	cw.Wait()
+	close(stopDrift)
+	dw.Wait()
 	r.Eval(1)
 	d.db.putErr, d.db.delErr = nil, nil
 	d.cloud.StopFaults()
